@@ -307,6 +307,8 @@ func freshLoadChild(path string) {
 		fmt.Print("child-failed: ", err)
 		os.Exit(3)
 	}
+	// a tool that reads a machine with linear-quantizer opcodes is started with -linear-data-range
+	gen.EnableLinearQuantizer(filepath.Dir(path))
 	bj := new(bondmachine.Bondmachine_json)
 	if err := json.Unmarshal(b, bj); err != nil {
 		fmt.Print("unmarshal: ", err)
@@ -348,6 +350,9 @@ func main() {
 	run.Floor = 100
 	scratch, clean := hx.Scratch("c11")
 	defer clean()
+	if err := gen.EnableLinearQuantizer(scratch); err != nil {
+		fmt.Fprintln(os.Stderr, "lq ranges:", err)
+	}
 	hx.SilenceStdout(filepath.Join(scratch, "lib.log"))
 	var cs []caseT
 	rng := hx.RNG(run.Seed, "c11")
